@@ -22,6 +22,8 @@ the client's; S_client = the session named by ``view.current_session_token()`` p
 
 from __future__ import annotations
 
+import contextlib
+
 from typing import Any
 
 from dst.harness import RunCtx
@@ -291,6 +293,13 @@ def run(ctx: RunCtx) -> None:
                 if c.view is not None:
                     if not _leave(ctx, c, steps, server_set, client_set, resp_shape, nsteps):
                         break
+        # never leave a with_session_token() block open: its generator would be finalised (and send its exit DELETE) at some
+        # later point of the interpreter's life, i.e. inside another run
+        for c in clients:
+            if c.cm is not None:
+                with contextlib.suppress(Exception):
+                    c.cm.__exit__(None, None, None)
+                c.cm = c.view = None
 
     ctx.sim_seconds += sched.now
     ctx.nontrivial = opened_any[0]
